@@ -880,6 +880,27 @@ class LoopSpec:
             for name in _target_names(node.target):
                 st.env[name] = SV("poison", x="loop variable %s" % name)
             return [(st, None)] + outs
+        if it.k == "list":
+            # ordered iteration over a list value: k completed iterations, loop variable items[k]
+            n = it.x
+            self._assert_inv(eng, st, LoopCtx(eng, st, cL, k=_z3.IntVal(0)), "%d.init" % ordinal)
+            self._havoc(eng, st)
+            s = st.fork()
+            k = fresh("k", Int)
+            s.assume(_z3.And(0 <= k, k < n))
+            self._assume_inv(eng, s, LoopCtx(eng, s, cL, k=k))
+            eng.assign(node.target, eng.schema.refine(SV("val", _z3.Select(it.t, k), cls=it.cls)), s)
+            for (s2, ctrl) in eng.exec_stmts(node.body, s):
+                if ctrl is not None and ctrl[0] == "raise":
+                    outs.append((s2, ctrl))
+                    continue
+                if ctrl is not None and ctrl[0] in ("return", "break"):
+                    raise Unsupported("return/break in invariant loop")
+                self._assert_inv(eng, s2, LoopCtx(eng, s2, cL, k=k + 1), "%d.step" % ordinal)
+            self._assume_inv(eng, st, LoopCtx(eng, st, cL, k=n))
+            for name in _target_names(node.target):
+                st.env[name] = SV("poison", x="loop variable %s" % name)
+            return [(st, None)] + outs
         if it.k == "zip":
             # ordered iteration over zip(a, b) of two sequences: k completed iterations, loop variables (a[k], b[k])
             sa, sb = it.x
